@@ -11,7 +11,7 @@ use multiversx_chain_vm::tx_mock::{
     async_call_tx_input, async_callback_tx_input, async_promise_callback_tx_input,
     AsyncCallTxData, CallType, Promise, TxFunctionName, TxInput, TxLog, TxResult, TxTokenTransfer,
 };
-use multiversx_chain_vm::types::{VMAddress, VMCodeMetadata};
+use multiversx_chain_vm::types::{VMAddress, VMCodeMetadata, H256};
 use multiversx_chain_vm::world_mock::{AccountData, BlockchainMock};
 use multiversx_sc::contract_base::CallableContractBuilder;
 use multiversx_sc_scenario::api::DebugApi;
@@ -88,6 +88,9 @@ pub struct World {
     pub next_pending: usize,
     /// contract kind name by address (for `deliver real`)
     pub kinds: BTreeMap<Vec<u8>, String>,
+    /// every top-level transaction gets its own hash (legacy async callbacks store their
+    /// closure in contract storage keyed by the transaction hash)
+    pub tx_counter: u64,
 }
 
 fn addr(b: &[u8]) -> VMAddress {
@@ -128,7 +131,7 @@ impl World {
         let mut bm = BlockchainMock::new(Box::new(map.clone()));
         // the ESDT system SC must exist as an account before callbacks from it are delivered
         bm.state.accounts.insert(addr(&ESDT_SYSTEM_SC), AccountData::new_empty(addr(&ESDT_SYSTEM_SC)));
-        World { bm, map, pending: vec![], next_pending: 0, kinds: BTreeMap::new() }
+        World { bm, map, pending: vec![], next_pending: 0, kinds: BTreeMap::new(), tx_counter: 0 }
     }
 
     fn ensure_account(&mut self, a: &VMAddress) {
@@ -146,6 +149,7 @@ impl World {
                 continue;
             }
             if l.topics.is_empty() {
+                out.push(format!("{}|?{}|-|-", hx(l.address.as_bytes()), ep));
                 continue;
             }
             let name = String::from_utf8_lossy(&l.topics[0]).to_string();
@@ -298,7 +302,11 @@ impl World {
             }
             // tx <from> <to> <func> <egld> <esdt|-> <args|->
             "tx" => {
+                self.tx_counter += 1;
+                let mut h = [0u8; 32];
+                h[24..32].copy_from_slice(&self.tx_counter.to_be_bytes());
                 let input = TxInput {
+                    tx_hash: H256::from(h),
                     from: addr(&unhx(f[1])),
                     to: addr(&unhx(f[2])),
                     func_name: f[3].into(),
